@@ -29,8 +29,8 @@ ASSUMPTIONS = ['scale factors are powers of two, so the transformed input is exa
                'float comparisons use 1e-10 relative tolerance (summation order inside pandas may differ after a renaming)']
 EXHAUSTIVE = {'quick': False, 'thorough': False}
 HASH_SEEDS = {'quick': [0], 'thorough': [0, 1, 2]}
-MINIMA = {'quick': {'pairs_compared': 300, 'designs_compared': 400, 'distinct_nontrivial': 150, 'set:transforms': 6},
-          'thorough': {'pairs_compared': 4000, 'designs_compared': 6000, 'distinct_nontrivial': 2000, 'set:transforms': 6}}
+MINIMA = {'quick': {'pairs_with_restated_rows': 30, 'pairs_compared': 300, 'designs_compared': 400, 'distinct_nontrivial': 150, 'set:transforms': 6},
+          'thorough': {'pairs_with_restated_rows': 400, 'pairs_compared': 4000, 'designs_compared': 6000, 'distinct_nontrivial': 2000, 'set:transforms': 6}}
 N = {'quick': 420, 'thorough': 5000}
 CASE_TIMEOUT = {'quick': 300, 'thorough': 900}
 
@@ -91,6 +91,8 @@ def transform(case, r, kind):
     k = r.randrange(-3, 13)
     c = 2.0 ** k
     panel['values'] = panel['values'] * c
+    if panel.get('dups'):
+      panel['dups'] = [(i, k2, v * c) for i, k2, v in panel['dups']]
     if kw.get('budget_range') is not None:
       kw['budget_range'] = (kw['budget_range'][0] * c, kw['budget_range'][1] * c)
   new_rows = None
@@ -118,6 +120,16 @@ def run_case(spec):
   cls = 'duplicates' if spec['idx'] % 17 == 0 else None
   case = sl.make_case(r, g, G, id_style=id_style, cls=cls, elig_extra='none',
                       focus=[None, 'budget', 'share', 'ngeos', 'volume', 'budget'][(spec['idx'] // 12) % 6])
+  if kind in ('shuffle', 'all') and r.random() < 0.5:
+    # restated rows: some (geo, date) cells occur twice with different values (the canonical table averages them)
+    pn = case['panel']
+    dups = []
+    for _ in range(r.randrange(1, 10)):
+      i, k = r.randrange(len(pn['ids'])), r.randrange(len(pn['dates']))
+      if pn['present'][i, k]:
+        dups.append((i, k, float(pn['values'][i, k]) * r.choice([0.5, 0.9, 1.1, 1.5])))
+    pn['dups'] = dups
+    case['frame'] = gen.panel_frame(pn, r, shuffle=True)
   if kind not in ('shuffle', 'all'):
     case['frame'] = gen.panel_frame(case['panel'], None, shuffle=False)
   tcase, idmap, c = transform(case, r, kind)
@@ -137,6 +149,7 @@ def run_case(spec):
             'sample': None, 'outcome': tag + ':raised', 'case': sl.describe(case) if violations else None}
   da, db = a['designs'], b['designs']
   counters['pairs_compared'] += 1
+  counters['pairs_with_restated_rows'] += bool(case['panel'].get('dups'))
   budget_scoring = which == 'exhaustive' and case['params'].get('budget_range') is not None
   tied_panel = case['panel']['cls'] in ('duplicates', 'integer')
   if len(da) != len(db):
